@@ -84,6 +84,12 @@ CHECKS = {
    text="85k type graphs (quick; all ~620k thorough) over four local structs and an imported struct with unexported members (value/pointer embedding, colliding names at equal and different depths, value/pointer receivers), 6 selector names x 9 operand forms each (4.6M lookups): acceptance, member kind, reported type, Recorder.Member object owner and the member the emitted text selects must coincide with go/types. Deviations pinned per (kind|form|selector|embedding skeleton) with counts.",
    note="Trusted: go/types 1.23.5 lookup; member identity across universes by owner type name + member name + type.",
    design="§4 C08"),
+ "C09": dict(
+   category="model_checking",
+   technique="explicit-state exploration of all import/reference/declare/discard/force/switch-file/write histories up to a length bound on the real package, against a reference model of per-file reference sets; oracle = go/types name resolution on the emitted files",
+   text="All histories of length <=4 over a 19-operation alphabet (quick; 34 operations thorough) on a two-file package: 131k histories. After each history every file is written twice; import specs must equal referenced ∪ forced, local names must be unique and differ from package-level identifiers, every planted reference must resolve (Info.Uses) to the intended path, the package must type-check, the second write must be byte-identical. Write is itself an operation, so name fixing and dirty-flag handling are explored in every position.",
+   note="Trusted: go/types 1.23.5; the reference model of the history; histories the builder rejects (redeclarations) are pruned.",
+   design="§4 C09"),
 }
 
 NOT_APPLICABLE = {
